@@ -9,6 +9,7 @@ extractor), all keys and values (any byte strings, including empty, `0x00`, `0xF
 with reopen points anywhere.
 -/
 import SwimVerif.Proofs.Stores
+import SwimVerif.Proofs.StoresHandover
 
 set_option linter.unusedVariables false
 namespace SwimVerif.Store
@@ -141,21 +142,53 @@ theorem C13_inmem_waiter_gets_state (s : InMem.St) (a b p : Nat) (uri : Bytes) (
   simp [InMem.step, ha, InMem.dropLive, hn, aget_adel, hab, hba, hb, InMem.openNode, aget_aset, InMem.dropSender,
     InMem.pollSlot]
 
-/-- Full statement (not proved): for every op sequence the node state of a URI is held in exactly one place and
-changes only by the data ops of its running instance. -/
-def C13_inmem_handover_all_sequences_open : Prop :=
-  ∀ (ops : List Op) (p : Nat) (uri : Bytes) (slot : Nat) (st : InMem.NodeState),
-    aget (InMem.run InMem.init ops).slots slot = some (.live p uri st) →
-    ∀ slot' st', aget (InMem.run InMem.init ops).slots slot' = some (.live p uri st') → slot' = slot
-
-/-- It is false without a side condition (finding FC13a): a pending open that already received the state and is
-then dropped loses it; the URI can never be opened again. -/
-theorem C13_inmem_cancelled_open_loses_state_fails :
-    let ops : List Op := [.opn 0 0 [47, 97], .data 0 (.idFor [99]), .data 0 (.put 0 [170]),
-                          .opn 1 0 [47, 97], .drp 0, .drp 1]
+/-- **Hand-over, every op sequence** (opens, polls, drops — including cancelled pending opens — and data ops over any
+number of handles, URIs and planes): a URI never has two running instances; a state that was handed over and a
+running instance never coexist, at most one pending open owns a handed-over state, and whoever holds a state
+(running instance or pending open) has the plane entry marked in use. -/
+theorem C13_inmem_handover_all_sequences (ops : List Op) :
     let s := InMem.run InMem.init ops
-    s.slots = [] ∧ aget s.nodes (0, [47, 97]) = some (.inUse none) ∧ s.chans = [] ∧
-    (InMem.step s (.opn 2 0 [47, 97])).2 = .pending := by decide
+    (∀ a b p uri st st', aget s.slots a = some (.live p uri st) → aget s.slots b = some (.live p uri st') → a = b) ∧
+    (∀ a b p uri c st st', aget s.slots a = some (.waiting p uri c) → aget s.chans c = some (.full st) →
+      aget s.slots b ≠ some (.live p uri st')) ∧
+    (∀ a b p uri c c' st st', aget s.slots a = some (.waiting p uri c) → aget s.chans c = some (.full st) →
+      aget s.slots b = some (.waiting p uri c') → aget s.chans c' = some (.full st') → a = b) ∧
+    (∀ a p uri st, aget s.slots a = some (.live p uri st) → InMem.isInUse (aget s.nodes (p, uri)) = true) := by
+  have h := InMem.hinv_run ops InMem.init InMem.hinv_init
+  exact ⟨h.u, h.j2, h.j3, h.j1⟩
+
+example : aget (InMem.run InMem.init [.opn 0 0 [47, 97], .opn 1 0 [47, 97], .opn 2 0 [47, 98], .drp 0, .poll 1]).slots 1 =
+    some (.live 0 [47, 97] {}) := by decide
+
+/-- Not proved (statement only): with the FC13a fix no state is ever lost — an entry marked in use always has a
+holder (a running instance, or a pending open that owns the handed-over state). Checked on all choreographies of three
+handles up to depth 6 and on the random traces instead. -/
+def C13_inmem_state_never_lost_open : Prop :=
+  ∀ (ops : List Op) (p : Nat) (uri : Bytes),
+    InMem.isInUse (aget (InMem.run InMem.init ops).nodes (p, uri)) = true →
+    (∃ a st, aget (InMem.run InMem.init ops).slots a = some (.live p uri st)) ∨
+    (∃ a c st, aget (InMem.run InMem.init ops).slots a = some (.waiting p uri c) ∧
+      aget (InMem.run InMem.init ops).chans c = some (.full st))
+
+/-- A pending open that already received the state and is then cancelled (dropped) returns the state to the plane:
+the next open completes at once with exactly that state (the code after the FC13a fix; before it the state was lost
+and the URI could never be opened again). -/
+theorem C13_inmem_cancelled_open_returns_state (s : InMem.St) (a b p c : Nat) (uri : Bytes) (st : InMem.NodeState)
+    (ha : aget s.slots a = some (.waiting p uri c)) (hc : aget s.chans c = some (.full st))
+    (hn : aget s.nodes (p, uri) = some (.inUse none)) (hb : aget s.slots b = none) :
+    (InMem.step s (.drp a)).2 = .ok ∧
+    aget (InMem.step s (.drp a)).1.nodes (p, uri) = some (.idle st) ∧
+    (InMem.step (InMem.step s (.drp a)).1 (.opn b p uri)).2 = .ready ∧
+    aget (InMem.step (InMem.step s (.drp a)).1 (.opn b p uri)).1.slots b = some (.live p uri st) := by
+  have hab : b ≠ a := fun e => by rw [e, ha] at hb; exact absurd hb (by simp)
+  simp [InMem.step, ha, hc, InMem.dropLive, hn, aget_adel, hab, hb, InMem.openNode, aget_aset]
+
+/-- The FC13a witness, on the repaired code: the value written by the first instance is read by the third. -/
+example :
+    let ops : List Op := [.opn 0 0 [47, 97], .data 0 (.idFor [99]), .data 0 (.put 0 [170]),
+                          .opn 1 0 [47, 97], .drp 0, .drp 1, .opn 2 0 [47, 97]]
+    let s := InMem.run InMem.init ops
+    (InMem.step s (.data 2 (.get 0))).2 = .some [170] := by decide
 
 /-! ## T2: RocksDB as ordered byte maps -/
 
